@@ -23,6 +23,13 @@ Oracle (all structure is read through lib.snapshot -> RefTree, i.e. raw links, n
   * birth-death optional flags: is_assign_extinct_taxa, is_add_extinct_attr, extinct_attr_name are documented as ignored
     while extinct tips are pruned => same specification AND the same tree as without them from the same generator
     state; is_assign_extant_taxa=False => no tip carries a taxon (everything else as specified);
+  * inputs: every call leaves its argument objects as it found them unless a side effect is documented (containing /
+    population tree: same nodes, links, taxa, edge lengths, attribute names and public plain values on tree, nodes and
+    edges; gene mapping; taxon namespaces and their Taxon objects; documented exceptions: birth-death appends new taxa to
+    a too-small namespace, decorate_original_tree=True adds 'gene_nodes' to nodes).  Histories: a containing tree +
+    mapping / population tree / namespace object that served an EARLIER call under other settings (default_pop_size,
+    edge_pop_size_attr / pop_size_attr, strategy, num_genes, rates, seed) must give, for the call of the case from an equal
+    generator state, exactly the tree obtained on freshly built equal arguments;
   * contained_coalescent_tree with gene taxa that share labels (documented contained_taxon_label_fn): tips are identified
     by the position of their taxon in the gene namespace, so determinism across rebuilt arguments is judged on Taxon
     identity, not on labels.
@@ -51,7 +58,8 @@ CONFIG = {
              "heights, 1-4 genes per species (contained_coalescent_tree: gene labels unique, shared within a species or one "
              "label for all genes; tips identified by gene-namespace position), per-edge population sizes; birth-death: "
              "half of the cases sweep is_assign_extinct_taxa / is_assign_extant_taxa / is_add_extinct_attr / "
-             "extinct_attr_name.  Non-trivial = the simulated tree has >= 3 "
+             "extinct_attr_name; edge_pop_size_attr / pop_size_attr in {pop_size, ne, None}; half of the cases carry a 'prior' "
+             "call that is first made on the same containing tree / population tree / namespace object.  Non-trivial = the simulated tree has >= 3 "
              "tips; distinct = (simulator, full argument case incl. seed)."),
     "assumptions": [
         "only the tree simulators are covered; numeric helpers (time_to_coalescence, discrete_time_to_coalescence) are not",
